@@ -23,6 +23,7 @@ pub fn sys_cfg() -> SysCfg {
         expr_steps: 5,
         names_and_aliases: true,
         mc_bias: true,
+        wide_const_state: true,
         ..SysCfg::default()
     }
 }
